@@ -4,7 +4,7 @@
    docs/fixes/C07_countdown_evaluate_first.diff: evaluate the running slots, then set up the new one and re-arm); the correspondence run uses the variant found in the tree. *)
 From Coq Require Import List ZArith Bool.
 Import ListNotations.
-From V Require Import Base.Bytes Gen.RelayConsts C07.Model C07.Proofs C07.Once C07.Restart.
+From V Require Import Base.Bytes Gen.RelayConsts C07.Model C07.Proofs C07.Once C07.Restart C07.Wrap.
 Local Open Scope Z_scope.
 
 (* Key invariant: after any history (commands on any channels, local switches, advances with any lateness script,
@@ -156,6 +156,86 @@ Example C07_restart_all_hypotheses_satisfiable :
     [GArm 2050100 1 6052 0; GArm 2040080 0 4042 0].
 Proof. exact restore_all_witness_thm. Qed.
 Print Assumptions C07_restart_all_hypotheses_satisfiable.
+
+(* ---------- Counter wraps (H_nowrap lifted) ----------
+   The theorems above assume that the 32-bit microsecond counter does not wrap (NW / NWrun).  The same theorems hold
+   across wraps; `wr : Wraps` carries WB, and NWw s (NWwrun: at every point of the history) says
+     H_wraps:  the counter wrapped at most WB times since the last boot, and
+     H_polled: every reading of the clock (uptime_usec: the 10 s poll timer, the evaluations of the slot table, the
+               commands) came less than one counter period (71.6 min) after the previous one (trace predicate `Polled`
+               over the ghost output GPoll; as `gaps_ok` of C19).
+   uptime.c then returns A - A/2^32 for the unwrapped count A (it multiplies the wrap count by 2^32 - 1: the device's
+   clock loses 1 us per wrap, C19_uptime_accurate), so "never early" is unchanged and the lateness bounds grow by WB us.
+   With WB = 0 these are the theorems above (that is how those are now proved, C07/Proofs.v `nowrap`). *)
+Theorem C07_never_early_wrap : forall (wr : Wraps) e c evs,
+  wf_cfg c -> Forall wf_ev evs -> NWwrun e c (start e c) evs ->
+  forall tcb ch tg t0 dur u0 u, In (GFinish tcb ch tg t0 dur u0 u) (run e c evs) ->
+    (dur - 1) * 1000 < tcb - t0 /\ In (GArm t0 ch dur tg) (run e c evs).
+Proof. intros wr e c evs W Wev N. exact (never_early_w e c W evs Wev N). Qed.
+Print Assumptions C07_never_early_wrap.
+
+Theorem C07_at_most_once_wrap : forall (wr : Wraps) e c evs,
+  wf_cfg c -> Forall wf_ev evs -> NWwrun e c (start e c) evs ->
+  NoDup (fins (outs (run_from e c (start e c) evs))).
+Proof. intros wr e c evs W Wev N. exact (at_most_once_w e c W evs Wev N). Qed.
+Print Assumptions C07_at_most_once_wrap.
+
+Theorem C07_fires_on_time_wrap : forall (wr : Wraps) c evs S,
+  wf_cfg c -> Forall wf_ev evs -> NWwrun true c (start true c) evs -> 0 <= S ->
+  Slack S (outs (run_from true c (start true c) evs)) ->
+  forall tcb ch tg t0 dur u0 u, In (GFinish tcb ch tg t0 dur u0 u) (run true c evs) ->
+    tcb < t0 + dur * 1000 + CD_MIN * 1000 + S + 2 * (8 * OP) + WB.
+Proof. intros wr c evs S W Wev N HS SL. exact (on_time_w c W evs Wev N S HS SL). Qed.
+Print Assumptions C07_fires_on_time_wrap.
+
+Theorem C07_exactly_once_wrap : forall (wr : Wraps) c S s x post dt,
+  wf_cfg c -> Good s -> J true S s -> 0 <= S -> In x (slots s) -> active x = true ->
+  Forall wf_ev post -> (forall ev, In ev post -> ~ ev_chan c ev (s_chan x)) -> 0 <= dt ->
+  let s1 := run_from true c s post in
+  let s2 := step true c s1 (EAdv dt) in
+  NWwrun true c s (post ++ [EAdv dt]) -> Slack S (outs s2) -> ~ In OFuel (outs s2) ->
+  g_t0 x + g_dur x * 1000 + CD_MIN * 1000 + 8 * OP + WB <= now s1 + dt ->
+  fin_in x (outs s2) /\ NoDup (fins (outs s2)).
+Proof. intros wr. exact exactly_once_w. Qed.
+Print Assumptions C07_exactly_once_wrap.
+
+Theorem C07_cancel_full_wrap : forall (wr : Wraps) e c pre x post ch,
+  wf_cfg c -> Forall wf_ev (pre ++ x :: post) -> NWwrun e c (start e c) (pre ++ x :: post) -> cmd_on c x ch ->
+  let s1 := run_from e c (start e c) pre in
+  forall tcb tg t0 dur u0 u, In (GFinish tcb ch tg t0 dur u0 u) (outs (run_from e c (start e c) (pre ++ x :: post))) ->
+    In (GFinish tcb ch tg t0 dur u0 u) (outs s1) \/ now s1 <= t0.
+Proof. intros wr. exact cancel_full_w. Qed.
+Print Assumptions C07_cancel_full_wrap.
+
+Theorem C07_restart_restores_all_wrap : forall (wr : Wraps) e c s,
+  wf_cfg c -> NoDup (map r_gpio (c_relays c)) -> NoDup (map r_chan (c_relays c)) -> (length (c_relays c) <= 8)%nat ->
+  TrO s -> 0 <= cnt0 s -> tb s <= now s ->
+  let s' := boot e c s in
+  NWw s' ->
+  exists add, outs s' = add ++ outs s /\
+  forall a r, In (a, r) (enum 0 (c_relays c)) -> restoring r = true ->
+    let v := getz (fl_relay s) a in
+    let T := getz (fl_t2 s) (r_chan r) in
+    v = 0 \/ v = 1 ->
+    (pin s' (r_gpio r) = xorb (v =? 1) (hasf (r_flags r) FLAG_LO_LEVEL) \/ newfin (r_chan r) add) /\
+    (0 < T < 2147483648 ->
+     v = 1 \/ (getz (time2 s) (r_chan r) = 0 /\ hasf (chfl_init c r) CHFLAG_COUNTDOWN = true) ->
+     exists t0, now s <= t0 <= now s + (a + 1) * (9 * OP) /\ In (GArm t0 (r_chan r) T (1 - v)) (outs s')).
+Proof. intros wr. exact restore_all_w. Qed.
+Print Assumptions C07_restart_restores_all_wrap.
+
+(* a history with a wrap: the counter reads 2^32 - 500000 at boot; "on for 2000 ms" is armed before the wrap and
+   switches back 2002.04 ms later, after it.  It meets H_wraps (WB = 1), H_polled and H_slack 0, and not H_nowrap. *)
+Example C07_wrap_hypotheses_satisfiable :
+  wf_cfg wrap_cfg /\ Forall wf_ev wrap_evs /\ @NWwrun one_wrap true wrap_cfg (start true wrap_cfg) wrap_evs /\
+  Slack 0 (outs (run_from true wrap_cfg (start true wrap_cfg) wrap_evs)) /\
+  ~ NW (run_from true wrap_cfg (start true wrap_cfg) wrap_evs) /\
+  gpio_edges (run true wrap_cfg wrap_evs) 4 = [(10, 1); (2002050, 0)] /\
+  gpio_edges (run true wrap_cfg wrap_evs) 5 = [(10030, 1); (410030, 0)] /\
+  filter (fun o => match o with GFinish _ _ _ _ _ _ _ => true | _ => false end) (run true wrap_cfg wrap_evs) =
+    [GFinish 410020 1 0 10020 400 4294477 4294877; GFinish 2002040 0 0 0 2000 4294467 4296469].
+Proof. exact wrap_witness_thm. Qed.
+Print Assumptions C07_wrap_hypotheses_satisfiable.
 
 (* The hypotheses of the theorems above are satisfiable: concrete boards and histories meeting them. *)
 Example C07_hypotheses_satisfiable :
